@@ -366,7 +366,8 @@ class C14(Check):
             "setLocal(offer|answer|implicit), setRemote(offer|answer), close} x {peer 0, peer 1}, and all of length <= 3 "
             "over the 30-symbol full alphabet (adds setRemote of: an answer with an m-section missing, answers without "
             "ice-ufrag / rtcp-mux / a=setup / with a=setup:actpass, offers without ice-ufrag / a=setup) -- enumerated up "
-            "to renaming of the two peers (first call on peer 0; the 4 peer set-ups audio+data/audio, data/none, "
+            "to renaming of the two peers (first call on peer 0; additionally all continuations of length <= 2 (full alphabet) of a completed negotiation, of "
+            "two negotiations in opposite directions and of glare; the 4 peer set-ups audio+data/audio, data/none, "
             "audio/audio, audio+video+data/audio+video come in both orientations); plus random sequences of length 5-40 "
             "biased towards legal continuations (local edits, offers without rtcp-mux or with an m-section dropped, a few "
             "pranswer/rollback types); thorough adds 1M sampled sequences of length 5-6; distinct by (case, observations); "
@@ -432,11 +433,10 @@ class C14(Check):
         return super().run(tier, seed, ncases if ncases is not None else total)
 
     def _plan(self, tier):
-        c, f = len(core_alphabet()), len(full_alphabet())
-        if tier == "quick":
-            return (sum(c ** k for k in range(1, 5)) + sum(f ** k for k in range(1, 4))
-                    - sum(c ** k for k in range(1, 4))) // 2 + self.random_quick
-        return self._plan("quick") + self.thorough_sampled + self.thorough_random
+        n = sum(1 for _ in self._enumerated()) + self.random_quick
+        if tier != "quick":
+            n += self.thorough_sampled + self.thorough_random
+        return n
 
     thorough_sampled = 1000000
     thorough_random = 150000
@@ -455,6 +455,15 @@ class C14(Check):
                 if seq[0][0] != 0 or all(json.dumps(a) in coreset for a in seq):
                     continue
                 yield list(seq)
+        # states that the short sequences above reach only at depth >= 4: after a complete negotiation
+        # (peer 0 offered), after a second one in the other direction, and under glare -- followed by
+        # all sequences of length <= 2 over the full alphabet
+        nego = [[0, 3], [1, 4, 0, 0, -1], [1, 3], [0, 4, 1, 0, -1]]
+        back = [[1, 3], [0, 4, 0, 0, -1], [0, 3], [1, 4, 1, 0, -1]]
+        for prefix in (nego, nego + back, [[0, 3], [1, 3]]):
+            for k in (1, 2):
+                for seq in itertools.product(full, repeat=k):
+                    yield prefix + list(seq)
 
     def random_ops(self, rng, lo=5, hi=40, exotic=False):
         """Random walk biased by the spec tracker: mostly legal continuations, some illegal / defective."""
